@@ -6,7 +6,7 @@ from tokutil import *  # noqa
 import h1tok_util as H
 
 ID = "C02"
-LEAN_MODULE = ["SCoda.Props.C02", "SCoda.Props.Glue", "SCoda.Props.C02b", "SCoda.Props.TokTie"]
+LEAN_MODULE = ["SCoda.Props.C02", "SCoda.Props.Glue", "SCoda.Props.C02b", "SCoda.Props.TokTie", "SCoda.Props.Defs"]
 LEVEL = "proof"
 CLAUSES = [
     ("the vocabulary maps its tokens one-to-one onto the consecutive ids 0..size-1 (for duplicate-free bins: known finding D16)",
@@ -29,6 +29,8 @@ CLAUSES = [
      ["SCoda.Glue.extract_channels"]),
     ("TIE BY TRANSLATION, tokeniser: MultiTrackLargeVocabularyNotelikeTokeniser is re-translated statement by statement on every run (Gen/TokFns.lean, tools/py2lean_tok.py: __init__, _construct_dictionary, tokenise with its closure _apply_rest as a fuelled loop, detokenise, get_info, encode, decode; f-strings as string concatenation, dicts as association lists, floats as exact rationals) and each translation is proved equal to the hand model the theorems above are about, on rendered token strings: _construct_dictionary never raises and stores exactly the model's vocabulary sequence (rendered) after the four literal ids, dictionary_size = the model's dictionarySize, __init__ fills defaults / sorts / builds the vocabulary as the model configuration says; encode / decode = the model's id maps",
      ["SCoda.TokTie.constructDictionary_all", "SCoda.TokTie.constructDictionary_eq", "SCoda.TokTie.constructDictionary_dictionary", "SCoda.TokTie.dictionarySize_eq", "SCoda.TokTie.tokInit_eq'", "SCoda.TokTie.encode_eq", "SCoda.TokTie.decode_eq", "SCoda.TokTie.tokenise_eq", "SCoda.TokTie.detokenise_eq"]),
+    ('render is injective on ALL tokens, signed fields included, so the rendered vocabulary has no duplicate key for every configuration with duplicate-free step sizes, note values and bins (negative arguments included; closes the last open statement of audit A9); _construct_dictionary is described by the construction sequence exactly on objects with _dictionary_size = 0 — a second call keeps ids 0..3 and renumbers the rest from the old size + 4 (replayed: the method is private and only called from __init__); generated decode / encode equal the model for EVERY configuration (duplicate keys: overwritten ids are missing from the inverse dictionary)',
+     ["SCoda.Defs.render_injective_all", "SCoda.Defs.render_vocab_nodup_general", "SCoda.Defs.render_vocab_nodup_iff", "SCoda.Defs.constructDictionary_anyObject_iff", "SCoda.Defs.constructDictionary_anyObject_statement_false", "SCoda.Defs.constructDictionary_second_call", "SCoda.Defs.decode_general", "SCoda.Defs.decode_eq_all", "SCoda.Defs.decode_one", "SCoda.Defs.encode_eq_all"]),
 ]
 RULE = ("configurations: 16 flag combinations x velocity_bins x tracks 1..3 x pitch ranges x value sets (quick: 24 sampled, "
         "thorough: the lattice) + configurations off the default step list (quick 16, thorough 120: custom and unsorted step lists, a step above "
